@@ -51,6 +51,14 @@ SCENARIOS += [
     ("custom,clear_checkpoint,checkpoint", "pause", {}),
     ("custom,clear_checkpoint", "suspend", {}),
     ("custom,pause,checkpoint", "abort", {}),
+    # a device whose stop() is asynchronous: the engine's own clean-up (at pause, at suspension, in the epilogue) suspends, and requests land inside it
+    ("set_async,custom,checkpoint", "abort", {}),
+    ("set_async,custom", "stop", {}),
+    ("set_async,custom", "halt", {}),
+    ("set_async,custom,checkpoint", "pause", {"max_requests": 2}),
+    ("set_async,custom,checkpoint", "suspend", {"max_requests": 1}),
+    # implicit checkpoints and devices in the plan
+    ("stage,unstage,set,custom,checkpoint", "pause", {"max_requests": 1}),
 ]
 if THOROUGH:
     SCENARIOS += [
